@@ -205,5 +205,20 @@ impl RRSIG {
 //%mutant lifetime_from_inception "saturating_sub(current_time)" => "saturating_sub(current_time.min(self.input.sig_inception.0))"
 //%end
 }
+// ---- the validator's clock (expression-level extraction from the async fn verify_response): the u64 seconds of the
+//      runtime clock enter RrsigValidity::check as a 32-bit serial number, i.e. modulo 2^32 (RFC 4034 3.1.5 / RFC 1982).
+//      C06 quantifies over "all clock values ... incl. u32 wrap": a saturating or failing conversion would pin the
+//      clock at one value after 2106 and make a signature window containing it valid forever. ----
+fn validator_clock(vp_now: u64) -> (current_time: u32)
+    ensures current_time as u64 == vp_now % 0x1_0000_0000u64
+{
+//%expr crates/net/src/dnssec/mod.rs :: impl<H: DnsHandle> DnssecDnsHandle<H> :: verify_response :: "let current_time =" .. ";"
+//%sub1 "<H::Runtime as RuntimeProvider>::Timer::current_time()" => "vp_now" # R-shim: the runtime's clock read (seconds since the epoch, u64) is the wrapper's parameter
+//%mutant clock_narrowed "as u32" => "as u16 as u32"
+//%end
+    assert(current_time as u64 == vp_now % 0x1_0000_0000u64) by (bit_vector) requires current_time == vp_now as u32;
+    current_time
+}
+
 } // verus!
 fn main() {}
